@@ -21,3 +21,30 @@ Theorem C06_fitted_paths_matched :
     In (r, i) new -> fits chk r p vs -> search chk t' p <> None.
 Proof. exact search_new_route_matched. Qed.
 Print Assumptions C06_fitted_paths_matched.
+
+(* ---- at operation level, for every history on the model router ---- *)
+From WF Require Import Model.Parser Model.Router Proofs.ReachP Proofs.RouterRoutesP Proofs.ReachOpsP.
+
+(* [exp_route e] is the route (atom list) of expansion e of the template *)
+Theorem C06_insert_changes_only_fitted_paths :
+  forall b (ops : list op) chk t d r' p,
+    rinsert (run b ops) t d = (r', ROk tt) ->
+    (forall es e vs, parse t = Ret es -> In e es -> ~ fits chk (exp_route e) p vs) ->
+    rsearch chk r' p = rsearch chk (run b ops) p.
+Proof. exact reach_insert_nonint. Qed.
+Print Assumptions C06_insert_changes_only_fitted_paths.
+
+Theorem C06_insert_fitted_paths_matched :
+  forall b (ops : list op) chk t d r' es e p vs,
+    rinsert (run b ops) t d = (r', ROk tt) -> parse t = Ret es -> In e es -> fits chk (exp_route e) p vs ->
+    rsearch chk r' p <> None.
+Proof. exact reach_insert_matched. Qed.
+Print Assumptions C06_insert_fitted_paths_matched.
+
+Theorem C06_delete_changes_only_fitted_paths :
+  forall b (ops : list op) chk t d r' p,
+    rdelete (run b ops) t = (r', ROk d) ->
+    (forall es e vs, parse t = Ret es -> In e es -> ~ fits chk (exp_route e) p vs) ->
+    rsearch chk r' p = rsearch chk (run b ops) p.
+Proof. exact reach_delete_nonint. Qed.
+Print Assumptions C06_delete_changes_only_fitted_paths.
